@@ -121,17 +121,29 @@ def s_mixed(rng):
     return _mk(prog, "mixed_with_circuits", rng)
 
 
+NON_SQUARE = [("pump", 1, 2), ("splitter", 2, 1), ("fast-splitter", 2, 1), ("boiler", 3, 2), ("heat-exchanger", 3, 2),
+              ("arithmetic-combinator", 1, 2), ("decider-combinator", 1, 2)]
+
+
 def s_rotated(rng):
+    """Non-square prototypes (tall and wide) in all four directions, top level and in a loop."""
     types = gen.Types(rng)
-    prog = [["input", "a", types.fresh(), 5],
-            ["place", "p", "pump", ["n", rng.randint(-10, 10)], ["n", rng.randint(-10, 10)], {"direction": rng.choice([4, 12])}]]
+    prog = [["input", "a", types.fresh(), 5]]
+    ox, oy = rng.randint(-15, 15), rng.randint(-15, 15)
+    for i in range(rng.randint(1, 4)):
+        proto, _w, _h = rng.choice(NON_SQUARE)
+        prog.append(["place", "p%d" % i, proto, ["n", ox + 6 * i], ["n", oy], {"direction": rng.choice([0, 4, 8, 12, 4, 12])}])
+    if rng.random() < 0.4:
+        proto, _w, _h = rng.choice(NON_SQUARE)
+        prog.append(["for", "k", ["range", 0, rng.randint(1, 3), None],
+                     [["place", "q", proto, ["b", "*", ["v", "k"], ["n", 6]], ["n", oy + 8], {"direction": rng.choice([4, 12])}]]])
     return _mk(prog, "rotated_non_square", rng)
 
 
 def gen_cases(tier, seed):
     rng = random.Random(9000011 * seed + 67)
     n = 150 if tier == "quick" else 1500
-    fns = [(s_scatter, 5), (s_loops, 4), (s_functions, 3), (s_mixed, 3), (s_rotated, 1)]
+    fns = [(s_scatter, 5), (s_loops, 4), (s_functions, 3), (s_mixed, 3), (s_rotated, 2)]
     cases = []
     for i in range(n):
         f = rng.choices([f for f, _w in fns], [w for _f, w in fns])[0]
@@ -153,6 +165,8 @@ def norm_props(d):
     for k, v in sorted((d or {}).items()):
         if isinstance(v, bool):
             v = int(v)
+        if k == "direction" and not v:
+            continue    # north is the default and is not exported
         out.append((k, v))
     return tuple(out)
 
